@@ -565,12 +565,22 @@ type progIndex struct {
 	callers map[*ssa.Function][]ssa.CallInstruction
 	asValue map[*ssa.Function]bool
 	invoked map[string]bool // method names called through an interface
+	// stores to a struct field anywhere in the module, keyed "<struct type>#<field index>"
+	fieldStores map[string][]*ssa.Store
 }
 
 var pIdx *progIndex
 
+func fieldKey(fa *ssa.FieldAddr) string {
+	pt, ok := fa.X.Type().Underlying().(*types.Pointer)
+	if !ok {
+		return ""
+	}
+	return sprintf("%s#%d", pt.Elem().String(), fa.Field)
+}
+
 func buildProgIndex(c *core.Ctx) {
-	ix := &progIndex{callers: map[*ssa.Function][]ssa.CallInstruction{}, asValue: map[*ssa.Function]bool{}, invoked: map[string]bool{}}
+	ix := &progIndex{callers: map[*ssa.Function][]ssa.CallInstruction{}, asValue: map[*ssa.Function]bool{}, invoked: map[string]bool{}, fieldStores: map[string][]*ssa.Store{}}
 	origin := func(f *ssa.Function) *ssa.Function {
 		if o := f.Origin(); o != nil {
 			return o
@@ -585,6 +595,13 @@ func buildProgIndex(c *core.Ctx) {
 		for _, b := range fn.Blocks {
 			for _, in := range b.Instrs {
 				var callee ssa.Value
+				if st, ok := in.(*ssa.Store); ok && !isInstance(fn) {
+					if fa, ok := st.Addr.(*ssa.FieldAddr); ok {
+						if k := fieldKey(fa); k != "" {
+							ix.fieldStores[k] = append(ix.fieldStores[k], st)
+						}
+					}
+				}
 				if ci, ok := in.(ssa.CallInstruction); ok {
 					cc := ci.Common()
 					if cc.IsInvoke() {
